@@ -194,6 +194,10 @@ def text_specs(tier, seed):
     ]
     for i, (d, ex) in enumerate(extra):
         out.append({"name": "default/extra%d" % i, "decl": d, "exprs": ex, "mapping": {}, "extents": {}})
+    # a rank with more than nine partitioning entries (level numbers with two digits)
+    deep = ["uniform_shape(%d)" % (2 ** i) for i in range(11, 0, -1)]
+    out.append({"name": "default/deep-partition", "decl": {"A": ["K", "M"], "B": ["K", "N"], "Z": ["M", "N"]},
+                "exprs": ["Z[m, n] = A[k, m] * B[k, n]"], "mapping": {"partitioning": {"Z": {"K": deep}}}, "extents": {}})
     # partitioning given for one Einsum of a cascade only / explicitly empty for the other
     d, ex = extra[-1]
     out.append({"name": "default/cascade-part-first", "decl": d, "exprs": ex,
